@@ -27,6 +27,9 @@ int main(int argc, char** argv) {
     const typename DB::Info* info = DB::info(zi); std::string nm = DB::name(info);
     typename DB::Processor proc; TimeZone tz = TimeZone::forZoneInfo(info, &proc);
     snprintf(g_journal, sizeof g_journal, "%s", nm.c_str());
+#ifdef VERIF_GEN_NS
+    if (verif_over_capacity(proc, tz)) { fprintf(fb, "Z %s\nO\n", nm.c_str()); c.add("zones_beyond_processor_capacity"); c.add("zones"); continue; }
+#endif
     Val cur = at(tz, T0);
     fprintf(fb, "Z %s\nT %lld %d %d %s\n", nm.c_str(), (long long)T0, cur.off * 60, cur.delta * 60, cur.ab[0] ? cur.ab : "\"\"");
     uint64_t nb = 0;
